@@ -39,6 +39,8 @@ def do_call(ws, call):
         ws.send_text(call[1], compress=False)
     elif kind == "send_binary":
         ws.send_binary(call[1].encode("utf-8"))
+    elif kind == "send_binary_hex":
+        ws.send_binary(bytes.fromhex(call[1]))
     elif kind == "send_ping":
         ws.send_ping(call[1].encode("utf-8"))
     elif kind == "send_pong":
